@@ -7,16 +7,27 @@
 #pragma once
 #include <cstdint>
 #include <cstring>
+#include <cstdio>
+#include <cstdlib>
 #include <string>
 #include <vector>
 #include <algorithm>
 
 namespace ref {
 
-constexpr int MAXR = 8;   // user rules
+#ifndef REF_MAXR
+#define REF_MAXR 8
+#endif
+#ifndef REF_MAXNT
+#define REF_MAXNT 4
+#endif
+#ifndef REF_MAXT
+#define REF_MAXT 4
+#endif
+constexpr int MAXR = REF_MAXR;   // user rules (capacities can be raised per translation unit with -DREF_MAX...)
 constexpr int MAXL = 5;   // right-side length
-constexpr int MAXNT = 4;  // user nonterminals
-constexpr int MAXT = 4;   // user terminals
+constexpr int MAXNT = REF_MAXNT;  // user nonterminals
+constexpr int MAXT = REF_MAXT;   // user terminals
 constexpr int TERM = 16;  // symbol code of terminal 0; nonterminal k has code k (k == NT is the augmented root)
 
 enum Assoc { NONE = 0, LTOR = 1, RTOL = 2 };
@@ -36,6 +47,7 @@ struct Gram {
     static bool is_term(int s) { return s >= TERM; }
     static int term_of(int s) { return s - TERM; }
     void finish() {               // install the augmented root rule as rule R
+        if (NT > MAXNT || T > MAXT || R > MAXR) { std::fprintf(stderr, "HARNESS ERROR: reference grammar exceeds REF_MAX* capacities\n"); std::abort(); }
         lhs[R] = NT; n[R] = 1; rhs[R][0] = 0; rprec[R] = 0;
         tprec[eof()] = tprec[err()] = 0; tassoc[eof()] = tassoc[err()] = NONE;
     }
